@@ -349,3 +349,63 @@ def g7(ctx):
 
 
 RULES.append(g7)
+
+
+PARTIAL_MAP_OPS = {"compose_partial", "filter", "filter_map", "take", "skip", "retain", "apply_slotmap_partial"}
+
+
+def _first_partial_op(role, depth=0):
+    """follow the value that provides the *keys* of a slot map through key-preserving operations; return the first
+    key-dropping operation met (or None)"""
+    r = strip_role(role)
+    if not isinstance(r, tuple) or depth > 12:
+        return None
+    if r[0] == "call":
+        if r[1] in PARTIAL_MAP_OPS:
+            return r[1]
+        if r[1] in ("compose", "compose_fresh", "collect", "into_iter", "iter", "map", "cloned", "copied") and r[3]:
+            return _first_partial_op(r[3][0], depth + 1)
+        return None
+    if r[0] in ("field", "variant", "index"):
+        return _first_partial_op(r[1], depth + 1)
+    if r[0] == "phi":
+        for x in r[1]:
+            p = _first_partial_op(x, depth + 1)
+            if p:
+                return p
+    return None
+
+
+@rule("W5", doc="the bijection stored with an e-node covers every slot of its shape: it is never built by a key-dropping operation")
+def w5(ctx):
+    crate = ctx.lib()
+    from . import c02
+    ins, rem = c02._hc_split(crate)
+    C.need("hashcons inserter", ins)
+    n = 0
+    for b in crate.fns():
+        for c in C.calls_to(crate, b, set(ins)):
+            sub = c.body
+            for a in c.args:
+                r = strip_role(sub.role_of_operand(a))
+                bij = None
+                if isinstance(r, tuple) and r[0] == "agg" and len(r[2]) == 2:
+                    bij = r[2][1]
+                elif isinstance(r, tuple) and "Bijection" in optype_(sub, a) or "(L, slotmap::SlotMap)" in optype_(sub, a):
+                    bij = ("field", r, "1") if "(L," in optype_(sub, a) else r
+                if bij is None:
+                    continue
+                n += 1
+                p_ = _first_partial_op(bij)
+                ctx.check(p_ is None, "stored-bijection-total:" + C.fkey(b), "%s stores a bijection built by key-preserving operations only" % C.short(b.id),
+                          "%s stores a node bijection built with `%s`: keys of slots that are redundant in the class (not covered by the class-level map) are dropped, so the stored e-node has shape slots without an image — lookups and re-canonicalisation of that node index a missing key" % (C.short(b.id), p_),
+                          where_of(sub, c.bb))
+    ctx.floor("stored node bijections inspected", n, 2)
+
+
+def optype_(b, op):
+    pl = mir.op_place(op)
+    return b.local_ty(pl["l"]) if pl is not None and not pl["p"] else ""
+
+
+RULES.append(w5)
